@@ -80,12 +80,13 @@ def gen_pair(r):
                                    (" = %s" if p["typ"] else "=%s") % p["default"] if p["default"] is not None else ""))
         return ps, ", ".join(txt)
 
-    pool = names[7:] + ["x", "y", "z", "u", "v", "w", "q1", "q2", "q3", "q4"]
+    taken = set(n for n, _ in a_attrs + f_params)
+    pool = [n for n in dict.fromkeys(names[7:] + ["x", "y", "z", "u", "v", "w", "q1", "q2", "q3", "q4"]) if n not in taken]
     r.shuffle(pool)
     # name coincidence: let some output names equal input names
     coincide = r.random() < 0.35
     if coincide:
-        pool += [n for n, _ in a_attrs + f_params]
+        pool += [n for n, _ in a_attrs + f_params]  # (each at most once: `pool.pop()` never yields a name twice)
     b_attrs = []
     for i in range(r.randint(1, 3)):
         t = r.choice(TYPES)
@@ -100,6 +101,7 @@ def gen_pair(r):
     out += ["", "    %sdef m(%s):" % ("@classmethod\n    " if m_first == "cls" else "", m_txt), "        return 1", "",
             "    other = 3", "", "", "def g(%s):" % g_txt, '    """g doc"""', "    return None", "", "", "TAIL = 9", ""]
     out_src = "\n".join(out)
+    compile(out_src, "<generated output module>", "exec")  # harness self-check (duplicate argument names etc.)
     return inp_src, out_src, {"A": a_attrs, "fin": f_params, "B": b_attrs, "B.m": m_ps, "g": g_ps, "m_first": m_first}
 
 
@@ -308,6 +310,11 @@ def run_case(ctx, P, stream, idx):
             members = ast.literal_eval("(%s,)" % inner[:k - 1])
             if list(members) != list(want):
                 dev("location.eval-members", "Literal members %r != evaluated %r" % (members, want))
+            # the wrap template applies in eval mode too: the annotation is the template around that Literal
+            literal_text = "Literal[" + inner[:k]
+            exp_eval = ast.unparse(ast.parse(wrap.format(output_param=literal_text) if wrap else literal_text, mode="eval").body)
+            if ast.unparse(ast.parse(got_ann, mode="eval").body) != exp_eval:
+                dev("location.eval-annotation-wrap", "eval mode annotation %r, expected %r" % (got_ann, exp_eval))
     elif got_ann != exp_ann:
         dev("location.annotation", "selected location annotated %r, expected %r" % (got_ann, exp_ann))
 
